@@ -283,6 +283,73 @@ func stagedGradCase(p *ref.Program, roots []int, o gradOpts) core.Verdict {
 	return core.Pass()
 }
 
+// upstreamLinearCase: every backward rule is LINEAR in the upstream gradient,
+// and multiplying by a power of two is exact in binary floating point as long
+// as nothing overflows or becomes subnormal. So back-propagating the same
+// program from root*W and from root*(s*W), s = 2^k, must give gradients that
+// differ by exactly the factor s - for any correct implementation, whatever
+// order it evaluates its formulas in. (A shortcut decided by a statistic of the
+// upstream gradient - its sum, spread, maximum - breaks this when the statistic
+// underflows or overflows.) p must end in the node root*W with W the last leaf.
+func upstreamLinearCase(p *ref.Program, root int, k int) core.Verdict {
+	s := math.Ldexp(1, k)
+	run := func(scale float64) ([]*ref.T, string) {
+		q := &ref.Program{Leaves: append([]*ref.T{}, p.Leaves...), Tracked: p.Tracked, Nodes: p.Nodes}
+		w := q.Leaves[len(q.Leaves)-1].Clone()
+		for i := range w.V {
+			w.V[i] *= scale
+		}
+		q.Leaves[len(q.Leaves)-1] = w
+		ts, failed, err := rt.RunProgram(q)
+		if err != nil {
+			return nil, fmt.Sprintf("forward node %d: %v", failed, err)
+		}
+		if err := tensor.BackPropagate(ts[root]); err != nil {
+			return nil, fmt.Sprintf("BackPropagate: %v", err)
+		}
+		out := make([]*ref.T, len(q.Leaves)-1)
+		for i := range out {
+			if g := ts[i].Gradient(); g != nil {
+				out[i] = rt.Read(g)
+			}
+		}
+		return out, ""
+	}
+	vals, ok := p.Forward()
+	if !ok || !p.DifferentiableAll(vals) {
+		return core.Skip()
+	}
+	g1, e1 := run(1)
+	g2, e2 := run(s)
+	if e1 != "" || e2 != "" {
+		return core.Fail("upstream scaled by 1: %q; by 2^%d: %q", e1, k, e2)
+	}
+	for i := range g1 {
+		if (g1[i] == nil) != (g2[i] == nil) {
+			return core.Fail("tensor %d: gradient nil-ness depends on the scale of the upstream gradient", i)
+		}
+		if g1[i] == nil {
+			continue
+		}
+		if !ref.SameShape(g1[i].Shape, g2[i].Shape) {
+			return core.Fail("tensor %d: gradient shape depends on the scale of the upstream gradient: %v vs %v", i, g1[i].Shape, g2[i].Shape)
+		}
+		for j := range g1[i].V {
+			a, b := g1[i].V[j]*s, g2[i].V[j]
+			if m := math.Abs(a); a != 0 && (m < 1e-280 || m > 1e280) {
+				continue // the scaled value leaves the normal range: not comparable
+			}
+			if math.Abs(g1[i].V[j]) != 0 && math.Abs(g1[i].V[j]) < 1e-280 {
+				continue
+			}
+			if d := math.Abs(a - b); d > 1e-12*math.Abs(a) || math.IsNaN(d) {
+				return core.Fail("backward rules are linear in the upstream gradient, but scaling the upstream by 2^%d does not scale the gradient of tensor %d by 2^%d: element %d is %v, expected %v (= %v * 2^%d)", k, i, k, j, b, a, g1[i].V[j], k)
+			}
+		}
+	}
+	return core.Pass()
+}
+
 func compareGrads(p *ref.Program, ts []tensor.Tensor, vals, grads []*ref.T) string {
 	return compareGradsOpt(p, ts, vals, grads, gradOpts{})
 }
